@@ -19,6 +19,7 @@ import (
 
 type tick struct{ ID string }
 type tock struct{ ID string }
+type tack struct{ ID string }
 
 type params struct {
 	kind string // order | twice | unsub | unsuball | die | die-reactive | zombie-die | restart | own-killed
@@ -350,11 +351,14 @@ func prelaunchScenario(window string, restart bool, refusal string, bounds []int
 			w := vsys.NewWorld(x)
 			w.Quiet = true
 			w.Start()
-			var seen []string
+			var seen, tacks []string
 			sub := &vsys.Script{Name: "sub",
 				PrelaunchCtx: func(a *vsys.Act, ctx vivid.PrelaunchContext, n int) {
 					if n > 0 {
-						return // restarted incarnation: the subscription of the path is still there
+						// restarted incarnation: the subscription of the path is still there; it subscribes to one more type
+						// from the OnPrelaunch of the restart
+						ctx.EventStream().Subscribe(ctx, tack{})
+						return
 					}
 					ctx.EventStream().Subscribe(ctx, tick{})
 					if window == "self" {
@@ -372,6 +376,9 @@ func prelaunchScenario(window string, restart bool, refusal string, bounds []int
 					}
 					if e, ok := m.(tock); ok {
 						seen = append(seen, "tock:"+e.ID)
+					}
+					if e, ok := m.(tack); ok {
+						tacks = append(tacks, e.ID)
 					}
 				}}
 			if window == "other" {
@@ -422,7 +429,11 @@ func prelaunchScenario(window string, restart bool, refusal string, bounds []int
 				vrt.QuiesceNoTimers()
 			}
 			w.Sys.EventStream().Publish(w.Sys, tick{ID: "e2"})
+			w.Sys.EventStream().Publish(w.Sys, tack{ID: "t1"})
 			vrt.QuiesceNoTimers()
+			if want := map[bool]string{true: "t1", false: ""}[restart]; strings.Join(tacks, ",") != want {
+				x.Fail("delivered-to-every-subscriber", "the restarted incarnation subscribed to a further type in the OnPrelaunch of its restart (restart=%v); of the event t1 of that type published afterwards it saw %v", restart, tacks)
+			}
 			if got := strings.Join(seen[inWindow:], ","); got != "e1,e2" {
 				x.Fail("delivered-to-every-subscriber", "an actor that subscribed in OnPrelaunch saw %v of the events e1, e2 published after ActorOf had returned (events seen before: %v)", seen[inWindow:], seen[:inWindow])
 			}
